@@ -3,9 +3,9 @@ CONSTANTS
   MaxV = 4
   MaxTurnout = 3
   PevChoices <- Pev_small
-  AllowZeroFinal = FALSE
   Export = FALSE
   IntTruncation = FALSE
+  MonotoneOnRescaled = FALSE
   MaxDist = 5
 INVARIANT TypeOK
 INVARIANT RegularYieldsRows
